@@ -8,6 +8,8 @@ import Mathlib.Tactic.NormNum.Prime
 import Mathlib.Algebra.BigOperators.Group.List.Basic
 import BronVerif.Lemmas.Weierstrass
 import BronVerif.Lemmas.Edwards
+import BronVerif.Lemmas.Window
+import BronVerif.Lemmas.MulShape
 import BronVerif.Drive.C14
 /-!
 # C14 — curve arithmetic equals the mathematical group operation (property theorems)
@@ -158,7 +160,7 @@ theorem rcb_double_eq_add_self {a b x y z : F} (h : y ^ 2 * z = x ^ 3 + a * x * 
   linear_combination (6 * y) * h
 
 /-- **Opposite operands**: `P + (−P)` has `Z₃ = 0` and `X₃ = 0`, i.e. is the point at infinity
-`(0 : Y₃ : 0)` (that `Y₃ ≠ 0` is part of `rcb_complete_statement`). -/
+`(0 : Y₃ : 0)` (that `Y₃ ≠ 0` is part of `rcb_complete`). -/
 theorem rcb_add_neg (a b3 x y z : F) :
     (Gen.Weierstrass.add a b3 x y z x (-y) z).1 = 0 ∧ (Gen.Weierstrass.add a b3 x y z x (-y) z).2.2 = 0 := by
   simp only [Gen.Weierstrass.add]
@@ -214,17 +216,162 @@ theorem rcb_add_on_curve {a b x1 y1 x2 y2 : F}
   rw [hR]
   exact Weierstrass.on_curve h1 h2
 
-/-- NOT PROVED (completeness converse of Renes–Costello–Batina): on a curve without rational
-2-torsion the output is never `(0,0,0)` and `Z₃ = 0` only for opposite operands.  Needs the
-odd-order argument; this direction is carried by the correspondence stream on exceptional inputs. -/
+/-- **Completeness of the Renes–Costello–Batina formulas** (the converse direction): on a curve
+without rational 2-torsion over a field of characteristic ≠ 2, for ANY two projective points of the
+curve the output is never `(0,0,0)`, and `Z₃ = 0` only when the affine sum is the point at infinity
+(`Q = −P`, or both operands are the identity).  The hypothesis `(2 : F) ≠ 0` was missing from the
+first formulation of this statement, which is FALSE in characteristic 2 (counterexample below:
+`y² = x³ + x + 1` over `𝔽₂`, `P = (0,1)`: doubling gives `Z₃ = 8y³ = 0`); every curve of the library
+has odd characteristic. -/
 def rcb_complete_statement : Prop :=
   ∀ (F : Type) [Field F] [DecidableEq F] (a b x1 y1 z1 x2 y2 z2 : F),
+    (2 : F) ≠ 0 →
     (∀ x : F, x ^ 3 + a * x + b ≠ 0) →
     y1 ^ 2 * z1 = x1 ^ 3 + a * x1 * z1 ^ 2 + b * z1 ^ 3 → (x1, y1, z1) ≠ (0, 0, 0) →
     y2 ^ 2 * z2 = x2 ^ 3 + a * x2 * z2 ^ 2 + b * z2 ^ 3 → (x2, y2, z2) ≠ (0, 0, 0) →
     Gen.Weierstrass.add a (3 * b) x1 y1 z1 x2 y2 z2 ≠ (0, 0, 0) ∧
     ((Gen.Weierstrass.add a (3 * b) x1 y1 z1 x2 y2 z2).2.2 = 0 →
       W.add a (wToAff x1 y1 z1) (wToAff x2 y2 z2) = .inf)
+
+/-- **`rcb_complete_affine`**: normalised representatives.  `Z₃(P, Q) = (x₂−x₁)³ · y(P − Q)` and
+`Y₃(P, −P) = (2y)³ · y(2P)` (`Lemmas/Weierstrass`), and a point of the curve with `y = 0` would be a
+root of `x³ + ax + b`. -/
+theorem rcb_complete_affine {a b x1 y1 x2 y2 : F} (h2 : (2 : F) ≠ 0) (hroot : ∀ x : F, x ^ 3 + a * x + b ≠ 0)
+    (h1 : y1 ^ 2 = x1 ^ 3 + a * x1 + b) (h2' : y2 ^ 2 = x2 ^ 3 + a * x2 + b) :
+    (Weierstrass.Y3 a (3 * b) x1 y1 1 x2 y2 1 ≠ 0 ∨ Weierstrass.Z3 a (3 * b) x1 y1 1 x2 y2 1 ≠ 0) ∧
+    (Weierstrass.Z3 a (3 * b) x1 y1 1 x2 y2 1 = 0 → W.add a (.aff x1 y1) (.aff x2 y2) = .inf) := by
+  have hy1 : y1 ≠ 0 := by
+    intro h; apply hroot x1; rw [h] at h1; linear_combination (-1 : F) * h1
+  by_cases hx : x1 = x2
+  · subst hx
+    have hyy : (y1 - y2) * (y1 + y2) = 0 := by linear_combination h1 - h2'
+    rcases mul_eq_zero.mp hyy with h | h
+    · -- doubling
+      have e : y2 = y1 := by linear_combination (-1 : F) * h
+      subst e
+      have hz : Weierstrass.Z3 a (3 * b) x1 y2 1 x1 y2 1 ≠ 0 := by
+        rw [Weierstrass.tan_z h1]
+        have h8 : (8 : F) ≠ 0 := by
+          have : (8 : F) = 2 ^ 3 := by norm_num
+          rw [this]; exact pow_ne_zero 3 h2
+        exact mul_ne_zero h8 (pow_ne_zero 3 hy1)
+      exact ⟨Or.inr hz, fun h0 => absurd h0 hz⟩
+    · -- opposite points
+      have e : y2 = -y1 := by linear_combination h
+      subst e
+      have hne : y1 ≠ -y1 := by
+        intro h'
+        have : 2 * y1 = 0 := by linear_combination h'
+        rcases mul_eq_zero.mp this with h'' | h''
+        · exact h2 h''
+        · exact hy1 h''
+      refine ⟨Or.inl ?_, fun _ => by simp [W.add, hne]⟩
+      rw [Weierstrass.y3_neg_eq_y_double h1 hy1 h2]
+      intro h0
+      have h2y : (2 * y1) ^ 3 ≠ 0 := pow_ne_zero 3 (mul_ne_zero h2 hy1)
+      have hyy0 := (mul_eq_zero.mp h0).resolve_right h2y
+      have hc := Weierstrass.tangent_closure h1 hy1 h2
+      rw [hyy0] at hc
+      exact hroot (((3 * x1 ^ 2 + a) / (2 * y1)) ^ 2 - 2 * x1) (by linear_combination (-1 : F) * hc)
+  · have hd : x2 - x1 ≠ 0 := sub_ne_zero.mpr (Ne.symm hx)
+    have hz : Weierstrass.Z3 a (3 * b) x1 y1 1 x2 y2 1 ≠ 0 := by
+      rw [Weierstrass.z3_eq_y_diff h1 h2' hx]
+      intro h0
+      have hyy0 := (mul_eq_zero.mp h0).resolve_right (pow_ne_zero 3 hd)
+      have hc := Weierstrass.chord_closure h1 h2' hx
+      rw [hyy0] at hc
+      exact hroot (((-y2 - y1) / (x2 - x1)) ^ 2 - x1 - x2) (by linear_combination (-1 : F) * hc)
+    exact ⟨Or.inr hz, fun h0 => absurd h0 hz⟩
+
+
+omit [DecidableEq F] in
+theorem proj_root_of_y_zero {a b x z : F} (hz : z ≠ 0) (h : (0 : F) ^ 2 * z = x ^ 3 + a * x * z ^ 2 + b * z ^ 3) :
+    (x / z) ^ 3 + a * (x / z) + b = 0 := by
+  field_simp
+  linear_combination (-1 : F) * h
+
+theorem rcb_complete_proved (a b x1 y1 z1 x2 y2 z2 : F) (h2 : (2 : F) ≠ 0)
+    (hroot : ∀ x : F, x ^ 3 + a * x + b ≠ 0)
+    (h1 : y1 ^ 2 * z1 = x1 ^ 3 + a * x1 * z1 ^ 2 + b * z1 ^ 3) (n1 : (x1, y1, z1) ≠ (0, 0, 0))
+    (h2' : y2 ^ 2 * z2 = x2 ^ 3 + a * x2 * z2 ^ 2 + b * z2 ^ 3) (n2 : (x2, y2, z2) ≠ (0, 0, 0)) :
+    Gen.Weierstrass.add a (3 * b) x1 y1 z1 x2 y2 z2 ≠ (0, 0, 0) ∧
+    ((Gen.Weierstrass.add a (3 * b) x1 y1 z1 x2 y2 z2).2.2 = 0 →
+      W.add a (wToAff x1 y1 z1) (wToAff x2 y2 z2) = .inf) := by
+  -- a point with Z = 0 is (0 : y : 0) with y ≠ 0; a point with Z ≠ 0 has y ≠ 0 (no 2-torsion)
+  have inf_form : ∀ {x y z : F}, y ^ 2 * z = x ^ 3 + a * x * z ^ 2 + b * z ^ 3 → (x, y, z) ≠ (0, 0, 0) →
+      z = 0 → x = 0 ∧ y ≠ 0 := by
+    intro x y z h n hz
+    subst hz
+    have hx : x = 0 := by
+      have : x ^ 3 = 0 := by linear_combination (-1 : F) * h
+      exact pow_eq_zero_iff (n := 3) (by norm_num) |>.mp this
+    refine ⟨hx, ?_⟩
+    intro hy; apply n; rw [hx, hy]
+  have y_ne : ∀ {x y z : F}, y ^ 2 * z = x ^ 3 + a * x * z ^ 2 + b * z ^ 3 → z ≠ 0 → y ≠ 0 := by
+    intro x y z h hz hy
+    subst hy
+    exact hroot (x / z) (proj_root_of_y_zero hz h)
+  by_cases hz1 : z1 = 0
+  · obtain ⟨hx1, hy1⟩ := inf_form h1 n1 hz1
+    subst hz1; subst hx1
+    have hR := (rcb_add_identity a (3 * b) y1 x2 y2 z2).2
+    have hy2 : y2 ≠ 0 := by
+      by_cases hz2 : z2 = 0
+      · exact (inf_form h2' n2 hz2).2
+      · exact y_ne h2' hz2
+    rw [hR]
+    refine ⟨?_, ?_⟩
+    · intro h
+      have := (Prod.mk.injEq _ _ _ _ ▸ h).2
+      have h3 : y1 ^ 2 * y2 * y2 = 0 := (Prod.mk.injEq _ _ _ _ ▸ this).1
+      exact mul_ne_zero (mul_ne_zero (pow_ne_zero 2 hy1) hy2) hy2 h3
+    · intro h
+      have hz2 : z2 = 0 := by
+        rcases mul_eq_zero.mp h with h' | h'
+        · exact absurd h' (mul_ne_zero (pow_ne_zero 2 hy1) hy2)
+        · exact h'
+      simp [wToAff, hz2, W.add]
+  · by_cases hz2 : z2 = 0
+    · obtain ⟨hx2, hy2⟩ := inf_form h2' n2 hz2
+      subst hz2; subst hx2
+      have hR := (rcb_add_identity a (3 * b) y2 x1 y1 z1).1
+      have hy1 : y1 ≠ 0 := y_ne h1 hz1
+      rw [hR]
+      have hz : y2 ^ 2 * y1 * z1 ≠ 0 := mul_ne_zero (mul_ne_zero (pow_ne_zero 2 hy2) hy1) hz1
+      refine ⟨?_, fun h => absurd h hz⟩
+      intro h
+      have := (Prod.mk.injEq _ _ _ _ ▸ h).2
+      exact hz (Prod.mk.injEq _ _ _ _ ▸ this).2
+    · -- both affine: normalise and use the affine statement
+      have a1 := affine_of_proj h1 hz1
+      have a2 := affine_of_proj h2' hz2
+      obtain ⟨hne, hinf⟩ := rcb_complete_affine h2 hroot a1 a2
+      have hs : (z1 * z2) ^ 2 ≠ 0 := pow_ne_zero 2 (mul_ne_zero hz1 hz2)
+      have hh := Weierstrass.add_homogeneous a (3 * b) z1 z2 (x1 / z1) (y1 / z1) 1 (x2 / z2) (y2 / z2) 1
+      have e1 : z1 * (x1 / z1) = x1 := by field_simp
+      have e2 : z1 * (y1 / z1) = y1 := by field_simp
+      have e3 : z2 * (x2 / z2) = x2 := by field_simp
+      have e4 : z2 * (y2 / z2) = y2 := by field_simp
+      rw [e1, e2, e3, e4, mul_one, mul_one] at hh
+      rw [hh]
+      refine ⟨?_, ?_⟩
+      · intro h
+        have h23 := (Prod.mk.injEq _ _ _ _ ▸ h).2
+        have hY := (Prod.mk.injEq _ _ _ _ ▸ h23).1
+        have hZ := (Prod.mk.injEq _ _ _ _ ▸ h23).2
+        rcases hne with hy | hz
+        · exact hy ((mul_eq_zero.mp hY).resolve_left hs)
+        · exact hz ((mul_eq_zero.mp hZ).resolve_left hs)
+      · intro h
+        have hZ := (mul_eq_zero.mp h).resolve_left hs
+        rw [wToAff_of_ne hz1, wToAff_of_ne hz2]
+        exact hinf hZ
+
+
+/-- **`rcb_complete`**: the completeness statement holds for the REGENERATED formulas. -/
+theorem rcb_complete : rcb_complete_statement := by
+  intro F _ _ a b x1 y1 z1 x2 y2 z2 h2 hroot h1 n1 h2' n2
+  exact rcb_complete_proved a b x1 y1 z1 x2 y2 z2 h2 hroot h1 n1 h2' n2
 
 /-- the part of completeness that is proved: opposite operands give `Z₃ = 0 ∧ X₃ = 0` -/
 theorem rcb_complete_partial (a b3 x y z : F) :
@@ -321,7 +468,8 @@ def ed_complete_assoc_statement : Prop :=
 (`φ (x + y) = W.add a (φ x) (φ y)`, `φ 0 = inf`) — for the curves of the library `G` is the group
 of rational points; that `W.add` is that group law is the content of Mathlib's
 `WeierstrassCurve.Affine.Point` and is taken as the hypothesis `hadd`.  The Go windowed ladder and
-Pippenger bucket method are NOT translated: they are tied to `W.smul`/`W.msm` by correspondence only. -/
+Pippenger bucket method are modelled by hand in `Model/Window.lean` (section "windowed ladder and
+bucket method" below). -/
 
 theorem W_double_eq_add_self (a : F) (P : WPt F) : W.double a P = W.add a P P := by
   cases P with
@@ -383,6 +531,124 @@ theorem msm_spec {G : Type} [AddMonoid G] (a : F) (φ : G → WPt F) (h0 : φ 0 
       rw [smul_spec a φ h0 hadd, ← hadd]
       exact ih gs (acc + k • g)
 
+
+/-! ## The Go windowed ladder and Pippenger bucket method (`pkg/base/algebra/impl/mul.go`)
+
+`Model/Window.lean` is a hand-written, statement-by-statement model of `ScalarMulLowLevel`,
+`MultiScalarMulLowLevel` and its `getWindow` closure over an abstract additive structure; the driver
+executes it on every `smulg`/`msmg`/`smulrawb`/`msmrawb`/`msm` line (over `ℤ/n` resp. the runtime
+curve points) and `msm_structure_matches_model` ties its constants and loop shapes to the Go source.
+Scalars are arbitrary little-endian byte strings (any length, also ≥ the group order, also empty);
+`k = leToNat bytes`. -/
+
+section window
+open BronVerif.Window BronVerif.Lemmas.Window
+
+/-- **`getWindow` is the base-`2^w` digit**: the bit-by-bit extraction (with its `break` past the end
+of the scalar) returns `⌊k / 2^start⌋ mod 2^w`, for every width, start and byte string. -/
+theorem get_window_spec (w : Nat) (b : Array UInt8) (start : Nat) :
+    getWindow w b start = (leToNat b / 2 ^ start) % 2 ^ w := by
+  rw [getWindow_eq, Nat.shiftRight_eq_div_pow]
+
+/-- **`window_digits_sum`**: the digits the bucket method / the ladder read — `getWindow w b (w·j)` for
+`j < numWindows = ⌈8·len / w⌉` — recompose the scalar, `Σⱼ digitⱼ · 2^(w·j) = k`, for every width
+`w ≥ 1` (in particular `1 ≤ w ≤ 16`, windows that straddle one or two byte boundaries, a top window
+that runs past the end) and every byte string. -/
+theorem window_digits_sum (w : Nat) (hw : 1 ≤ w) (b : Array UInt8) :
+    ((List.range (numWindows (b.size * 8) w)).map fun j => getWindow w b (j * w) * 2 ^ (j * w)).sum =
+      leToNat b := by
+  simp only [getWindow_eq]
+  rw [digits_sum_mod, Nat.mod_eq_of_lt]
+  refine lt_of_lt_of_le (leToNat_lt b) (Nat.pow_le_pow_right (by norm_num) ?_)
+  have := numWindows_cover hw (b.size * 8)
+  omega
+
+/-- more windows than needed (the longest scalar of an MSM determines `numWindows`): still exact -/
+theorem window_digits_sum_of_le (w : Nat) (hw : 1 ≤ w) (b : Array UInt8) (bits : Nat) (hb : b.size * 8 ≤ bits) :
+    ((List.range (numWindows bits w)).map fun j => getWindow w b (j * w) * 2 ^ (j * w)).sum = leToNat b := by
+  simp only [getWindow_eq]
+  rw [digits_sum_mod, Nat.mod_eq_of_lt]
+  refine lt_of_lt_of_le (leToNat_lt b) (Nat.pow_le_pow_right (by norm_num) ?_)
+  have := numWindows_cover hw bits
+  omega
+
+/-- **`smul_nibble_spec`**: the Go-literal model of `ScalarMulLowLevel` (table of 16 built by
+double-and-add-one, bytes from the last to the first, high nibble then low nibble, four doublings
+before each table addition) returns `k • P` in every additive monoid, for every byte string. -/
+theorem smul_nibble_spec {G : Type} [AddMonoid G] (P : G) (s : Array UInt8) :
+    smulNibble P s = leToNat s • P :=
+  smulNibble_eq P s
+
+/-- **`windowed_smul_spec`**: the fixed-window ladder of any width `w ≥ 1` (table of `2^w` multiples,
+`getWindow` digits from the top window down, `w` doublings then one table addition per window)
+returns `k • P` in every additive monoid. -/
+theorem windowed_smul_spec {G : Type} [AddMonoid G] (w : Nat) (hw : 1 ≤ w) (P : G) (s : Array UInt8) :
+    windowedSmul w P s = leToNat s • P :=
+  windowedSmul_eq hw P s
+
+/-- for `w = 4` the `getWindow` digits are the nibbles the Go ladder reads -/
+theorem nibble_digits (x : UInt8) (xs : List UInt8) :
+    getWindow 4 (x :: xs).toArray 0 = x.toNat &&& 0b1111 ∧
+    getWindow 4 (x :: xs).toArray 4 = (x.toNat >>> 4) &&& 0b1111 := by
+  have hx : x.toNat < 256 := x.toNat_lt
+  have e : (0b1111 : Nat) = 2 ^ 4 - 1 := by decide
+  rw [getWindow_eq, getWindow_eq, e, Nat.and_two_pow_sub_one_eq_mod, Nat.and_two_pow_sub_one_eq_mod]
+  simp only [leToNat, leToNatL, Nat.shiftRight_eq_div_pow]
+  constructor <;> omega
+
+/-- **`bucket_msm_spec`**: the model of `MultiScalarMulLowLevel` — empty input, the naive path
+`n ≤ 7`, "all scalars empty", and the bucket method with `w = clamp(bits.Len n, 2, 16)`,
+`numWindows = ⌈maxBits / w⌉`, scatter into `2^w` buckets skipping digit 0, running-sum collapse from
+the highest bucket down skipping identity buckets — returns `Σ kᵢ • Pᵢ` in every additive
+commutative monoid, for vectors of every length (0 and 1 included) and scalars of arbitrary,
+possibly different, byte lengths.  `isz` is the implementation's `IsZero` (only its soundness is
+used). -/
+theorem bucket_msm_spec {G : Type} [AddCommMonoid G] (isz : G → Bool) (hisz : ∀ x, isz x = true → x = 0)
+    (scalars : List (Array UInt8)) (points : List G) (hlen : scalars.length = points.length) :
+    msm isz scalars points = (List.zipWith (fun b P => leToNat b • P) scalars points).sum :=
+  msm_eq isz hisz scalars points hlen
+
+/-- the bucket method alone, for ANY width `w ≥ 1` and any vector length (the Go code only reaches
+it with `n ≥ 8`, `w = msmWidth n`) -/
+theorem bucket_core_spec {G : Type} [AddCommMonoid G] (isz : G → Bool) (hisz : ∀ x, isz x = true → x = 0)
+    (w : Nat) (hw : 1 ≤ w) (scalars : List (Array UInt8)) (points : List G) :
+    bucketCore isz w (numWindows (maxBits scalars) w) scalars points =
+      (List.zipWith (fun b P => leToNat b • P) scalars points).sum :=
+  bucketCore_eq isz hisz hw scalars points
+
+/-- the width function: `bits.Len n` clamped to `[2, 16]` -/
+theorem msm_width_spec (n : Nat) :
+    2 ≤ msmWidth n ∧ msmWidth n ≤ 16 ∧ (2 ≤ n → n < 2 ^ 16 → 2 ^ (msmWidth n - 1) ≤ n ∧ n < 2 ^ msmWidth n) := by
+  unfold msmWidth bitsLen clampLo clampHi
+  refine ⟨by simp only; split_ifs <;> omega, by simp only; split_ifs <;> omega, ?_⟩
+  intro h2 h16
+  have hn : n ≠ 0 := by omega
+  have hlog : n.log2 < 16 := (Nat.log2_lt hn).mpr h16
+  have h1 : 1 ≤ n.log2 := by
+    by_contra h
+    have : n.log2 < 1 := by omega
+    have := (Nat.log2_lt hn).mp this
+    omega
+  simp only [hn, if_false]
+  have e1 : ¬ (n.log2 + 1 < 2) := by omega
+  have e2 : ¬ (n.log2 + 1 > 16) := by omega
+  simp only [e1, e2, if_false, Nat.add_sub_cancel]
+  exact ⟨Nat.log2_self_le hn, Nat.lt_log2_self⟩
+
+/-- **`msm_structure_matches_model`** (T): the statement-by-statement structure of
+`ScalarMulLowLevel` and `MultiScalarMulLowLevel` REGENERATED from the Go source equals the structure
+the model mirrors, with every threshold / mask / loop bound spliced in from the model's constants
+(`Lemmas/MulShape.lean`): table size `16 = 2^4`, four doublings per nibble, `>> 4`, `& 15`, naive
+path `n ≤ 7`, clamp `[2, 16]`, `numWindows = (maxBits + w − 1)/w`, the bit loop of `getWindow` with its
+`break`, `startBit = wIdx·w`, the `win == 0` skip, the running-sum loop `k = 2^w − 1 … 1`. -/
+theorem msm_structure_matches_model :
+    Gen.MulFacts.scalarMul = MulShape.expectedScalarMul ∧
+    Gen.MulFacts.multiScalarMul = MulShape.expectedMultiScalarMul ∧
+    tableSize = 2 ^ nibbleBits := by
+  decide +kernel
+
+end window
+
 /-! ## Non-vacuity: concrete instances over `ZMod 7` -/
 
 instance : Fact (Nat.Prime 7) := ⟨by norm_num⟩
@@ -419,5 +685,61 @@ example (k : Nat) (g : ZMod 2) : W.smul (1 : ZMod 7) k (phi2 g) = phi2 (k • g)
 
 example : W.msm (1 : ZMod 7) [3, 0, 5] ([1, 1, 1].map phi2) = phi2 ((List.zipWith (fun k g => k • g) [3, 0, 5] [1, 1, 1]).foldl (· + ·) 0) :=
   msm_spec 1 phi2 (by decide) (by decide) _ _
+
+/-- `rcb_complete` on `y² = x³ + 3` over `𝔽₇` (no root of `x³ + 3`): `P = (1,2)`, `Q = (1,5) = −P` -/
+example :
+    Gen.Weierstrass.add (0 : ZMod 7) (3 * 3) 1 2 1 1 5 1 ≠ (0, 0, 0) ∧
+    ((Gen.Weierstrass.add (0 : ZMod 7) (3 * 3) 1 2 1 1 5 1).2.2 = 0 →
+      W.add (0 : ZMod 7) (wToAff 1 2 1) (wToAff 1 5 1) = .inf) :=
+  rcb_complete (ZMod 7) 0 3 1 2 1 1 5 1 (by decide) (by decide) (by decide) (by decide) (by decide) (by decide)
+
+/-- the characteristic-2 counterexample to the statement without `(2 : F) ≠ 0`: on
+`y² = x³ + x + 1` over `𝔽₂` (no root), doubling `P = (0,1)` gives `Z₃ = 0` although `2P ≠ ∞` in the model -/
+example :
+    (∀ x : ZMod 2, x ^ 3 + 1 * x + 1 ≠ 0) ∧
+    (Gen.Weierstrass.add (1 : ZMod 2) (3 * 1) 0 1 1 0 1 1).2.2 = 0 ∧
+    W.add (1 : ZMod 2) (wToAff 0 1 1) (wToAff 0 1 1) ≠ .inf := by
+  refine ⟨by decide, by decide, ?_⟩
+  have h1 : wToAff (0 : ZMod 2) 1 1 = .aff 0 1 := by simp [wToAff]
+  rw [h1]
+  simp [W.add, W.double]
+
+/-! non-vacuity of the window theorems -/
+
+open BronVerif.Window in
+/-- `w = 11` (vector length 1024 … 2047): the window starting at bit 22 of `2^32` straddles three
+bytes; its digit is `2^10` -/
+example : getWindow 11 #[0, 0, 0, 0, 1, 0, 0, 0] 22 = 2 ^ 10 := by decide
+
+open BronVerif.Window in
+example : ((List.range (numWindows (8 * 8) 11)).map fun j =>
+    getWindow 11 #[0, 0, 0, 0, 1, 0, 0, 0] (j * 11) * 2 ^ (j * 11)).sum = 2 ^ 32 :=
+  window_digits_sum 11 (by decide) #[0, 0, 0, 0, 1, 0, 0, 0]
+
+open BronVerif.Window in
+example (P : ZMod 1009) : smulNibble P #[0xff, 0x12, 0x80] = (0x8012ff : Nat) • P :=
+  smul_nibble_spec P _
+
+open BronVerif.Window in
+example (P : ZMod 1009) : windowedSmul 11 P #[0xff, 0x12, 0x80] = (0x8012ff : Nat) • P :=
+  windowed_smul_spec 11 (by decide) P _
+
+open BronVerif.Window in
+/-- nine points (bucket path, `w = 4`), scalars of different lengths including an empty one -/
+example (P : ZMod 1009) :
+    msm (fun x : ZMod 1009 => decide (x = 0)) [#[3], #[0, 1], #[], #[255, 255, 255], #[7], #[1], #[2], #[9], #[16]]
+        [P, 2 • P, P, P, 5, 6, 7, 8, 9] =
+      (List.zipWith (fun b Q => leToNat b • Q) [#[3], #[0, 1], #[], #[255, 255, 255], #[7], #[1], #[2], #[9], #[16]]
+        [P, 2 • P, P, P, 5, 6, 7, 8, 9]).sum :=
+  bucket_msm_spec _ (by intro x hx; simpa using hx) _ _ rfl
+
+open BronVerif.Window in
+/-- lengths 0 and 1 -/
+example (P : ZMod 1009) : msm (fun x : ZMod 1009 => decide (x = 0)) [] ([] : List (ZMod 1009)) = 0 ∧
+    msm (fun x : ZMod 1009 => decide (x = 0)) [#[5, 1]] [P] = (261 : Nat) • P := by
+  constructor
+  · simpa using bucket_msm_spec (G := ZMod 1009) (fun x => decide (x = 0)) (by intro x hx; simpa using hx) [] [] rfl
+  · have := bucket_msm_spec (G := ZMod 1009) (fun x => decide (x = 0)) (by intro x hx; simpa using hx) [#[5, 1]] [P] rfl
+    simpa [leToNat, leToNatL] using this
 
 end BronVerif.Props.C14
